@@ -15,7 +15,7 @@ S      : func = polynomial on [r_min, r_max), 0 outside; abel = line-of-sight qu
          relative to the size of the terms, for random coefficient vectors / matrices of degree ≤ 8, limits incl. negative and
          beyond-grid, r₀, s of either sign, reduced on/off, uniform and random grids, 2-D (r, cos) arrays with any origin;
          piecewise sums (overlaps, gaps), scalar * and /, copies, B-spline conversion, Angular algebra, Legendre series,
-         ApproxGaussian(tol) deviation ≤ 1.01·tol
+         ApproxGaussian(tol) deviation ≤ 1.01·tol and norm = exact integral of its pieces; SPolynomial at samples almost on the axis
 """
 import json
 
